@@ -121,6 +121,7 @@ type Ctx struct {
 	mu            sync.Mutex
 	evaluations   int
 	nontrivial    map[string]bool
+	nontrivialN   int // distinct non-trivial cases counted by a probe itself
 	samples       []interface{}
 	extra         map[string]interface{}
 	sets          map[string]map[string]bool
@@ -271,7 +272,7 @@ func (c *Ctx) writeEvidence() error {
 		cov[k] = len(m)
 	}
 	cov["evaluations"] = c.evaluations
-	cov["distinct_nontrivial"] = len(c.nontrivial)
+	cov["distinct_nontrivial"] = len(c.nontrivial) + c.nontrivialN
 	cov["rule"] = c.Rule
 	if len(c.samples) == 0 {
 		c.samples = append(c.samples, "no case was executed")
@@ -419,11 +420,11 @@ func Main(id, tier, replayPath string) int {
 		fmt.Printf("INCONCLUSIVE %s: %v\n", id, err)
 		return 2
 	}
-	if len(c.nontrivial) < c.MinNontrivial {
-		fmt.Printf("INCONCLUSIVE %s: only %d non-trivial cases observed (minimum %d)\n", id, len(c.nontrivial), c.MinNontrivial)
+	if len(c.nontrivial)+c.nontrivialN < c.MinNontrivial {
+		fmt.Printf("INCONCLUSIVE %s: only %d non-trivial cases observed (minimum %d)\n", id, len(c.nontrivial)+c.nontrivialN, c.MinNontrivial)
 		return 2
 	}
-	fmt.Printf("OK %s tier=%s seed=%d evaluations=%d distinct_nontrivial=%d inconclusive=%d wall=%.1fs\n", id, tier, seed, c.evaluations, len(c.nontrivial), len(c.inconclusive), time.Since(c.Start).Seconds())
+	fmt.Printf("OK %s tier=%s seed=%d evaluations=%d distinct_nontrivial=%d inconclusive=%d wall=%.1fs\n", id, tier, seed, c.evaluations, len(c.nontrivial)+c.nontrivialN, len(c.inconclusive), time.Since(c.Start).Seconds())
 	return 0
 }
 
